@@ -183,3 +183,48 @@ theorem remove_plain (c : Cfg) {D : Type} (g : Rng D) (fuel : Nat) {ph sz cap : 
 
 #print axioms remove_plain
 end SC
+
+namespace SC
+open RH
+
+/-- `insert` on the plain layout for a value other than the placeholder, when no growth is needed:
+    the answer is "was absent", and exactly that value is added -/
+theorem insert_plain_nogrow (c : Cfg) {D : Type} (g : Rng D) {ph sz cap : Nat} {a : Tbl}
+    (wf : PlainWF ph sz a) (e : Nat) (he : e ≠ ph) (d : D) :
+    (e ∈ plainElems ph a →
+        insertPlain c g sz cap ph a e d = .ok ((.heap sz cap ph a, false), d)) ∧
+    (e ∉ plainElems ph a → ∀ a', tablePlace c (enc ph e) (enc ph e) 0 a = some a' →
+        insertPlain c g sz cap ph a e d = .ok ((.heap (sz + 1) cap ph a', true), d) ∧
+        PlainWF ph (sz + 1) a' ∧ (plainElems ph a').Perm (e :: plainElems ph a)) := by
+  have hfold : (if e = 0 then ph else e) = enc ph e := rfl
+  constructor
+  · intro hmem
+    rw [mem_plainElems wf.ph_ne he] at hmem
+    obtain ⟨h0, i, hi, hg⟩ := mem_nz.1 hmem
+    have hl := lookfor_complete (k := enc ph e) wf.inv hi (by rw [hg]; exact h0) (by rw [K0]; exact hg)
+    unfold insertPlain
+    simp only [he, if_false, hfold, bind, StateT.bind, pure, StateT.pure, Except.bind, Except.pure, hl]
+  · intro hnot a' hplace
+    rw [mem_plainElems wf.ph_ne he] at hnot
+    have hfresh : ∀ i, i < a.size → get a i ≠ 0 → K a 0 i ≠ enc ph e := by
+      intro i hi ho hk
+      rw [K0] at hk
+      exact hnot (mem_nz.2 ⟨by rw [← hk]; exact ho, i, hi, hk⟩)
+    have hspec := tablePlace_spec c (k := enc ph e) (w := enc ph e) wf.npos wf.inv (enc_ne_zero wf.ph_ne) Nat.shiftRight_zero hfresh
+    rw [hplace] at hspec
+    obtain ⟨s1, s2, s3, s4⟩ := hspec
+    have hnf : ∀ i, lookfor (enc ph e) a 0 ≠ .found i := lookfor_absent wf.npos hfresh
+    refine ⟨?_, ⟨by rw [s1]; exact wf.npos, s2, s3, by rw [s4.length_eq, List.length_cons, ← wf.szc], wf.ph_ne⟩, ?_⟩
+    · unfold insertPlain
+      simp only [he, if_false, hfold, bind, StateT.bind, pure, StateT.pure, Except.bind, Except.pure]
+      cases hl : lookfor (enc ph e) a 0 with
+      | found i => exact absurd hl (hnf i)
+      | empty ii => simp only [hplace]; rfl
+      | needInsert => simp only [hplace]; rfl
+    · unfold plainElems
+      have := s4.map (dec ph)
+      rw [List.map_cons, dec_enc he] at this
+      exact this
+
+#print axioms insert_plain_nogrow
+end SC
